@@ -46,4 +46,8 @@ theorem aac_tables : aacFrequencyTable = Aac.freqTable ∧ aacReverseFrequencies
 theorem consts : const_minClearSize = 96 ∧ const_naluHdrLen = 4 ∧ const_maxNormalPayloadSize = 2 ^ 32 - 1 - 8 ∧
     const_boxHeaderSize = 8 ∧ const_largeSizeLen = 8 ∧ const_startCodeEmulationPreventionByte = 3 := by decide
 
+/-- every Go function a model file is a transcription of (committed table spec/transcribed.json, regenerated against
+    the current source by the extractor) still exists: a model is never silently tied to code that has gone -/
+theorem transcribed_functions_exist : transcribed.all (fun e => e.2.2) = true := by decide +kernel
+
 end Mp4ff.Expect
